@@ -2,9 +2,9 @@ package rules
 
 import (
 	"fmt"
-	"os"
 	"go/token"
 	"go/types"
+	"os"
 	"sort"
 	"strings"
 
@@ -32,21 +32,23 @@ const (
 	tInstance
 	tDoc
 	tDefn   // parameter / header definitions
+	tShared // reachable from a package-level variable (process-wide state, rule SHARED-REACH of C05)
 	cSchema // T2 (shallow copies)
 	cInstance
 	cDoc
 	cDefn
+	cShared
 )
 
-const t1Mask = tSchema | tInstance | tDoc | tDefn
+const t1Mask = tSchema | tInstance | tDoc | tDefn | tShared
 
 func (t taint) t1() taint       { return t & t1Mask }
-func (t taint) asCopy() taint   { return (t & t1Mask) << 4 }
-func (t taint) fromCopy() taint { return (t >> 4) & t1Mask }
+func (t taint) asCopy() taint   { return (t & t1Mask) << 5 }
+func (t taint) fromCopy() taint { return (t >> 5) & t1Mask }
 
 func (t taint) String() string {
 	var s []string
-	names := []string{"schema", "instance", "document", "definition"}
+	names := []string{"schema", "instance", "document", "definition", "process-shared"}
 	for i, n := range names {
 		if t&(1<<uint(i)) != 0 {
 			s = append(s, n)
@@ -77,6 +79,12 @@ var extMutators = map[string]int{
 var extDeepMutators = map[string]bool{
 	"spec.ExpandParameter": true, "spec.ExpandParameterWithRoot": true,
 	"spec.ExpandResponse": true, "spec.ExpandResponseWithRoot": true,
+}
+
+// package-level variables whose referents are governed by a dedicated rule
+var sharedExempt = map[string]bool{
+	"emptyResult": true, // EMPTY-IMMUTABLE: never written, refused by RedeemResult
+	"init$guard":  true,
 }
 
 // external functions returning memory that is private to the caller (deep copies / fresh values)
@@ -183,8 +191,8 @@ func baseOfAddr(v ssa.Value) ssa.Value {
 	return v
 }
 
-func InputRO(p *core.Prog, r *core.Report) {
-	const rule = "INPUT-RO"
+// roRun computes the taint fixpoint shared by INPUT-RO (C12) and SHARED-REACH (C05).
+func roRun(p *core.Prog, r *core.Report, rule string) *roAnalysis {
 	a := &roAnalysis{p: p, fld: map[string]taint{}, val: map[ssa.Value]taint{}, ret: map[*ssa.Function]map[int]taint{}, why: map[ssa.Value]string{}, cg: core.BuildCallGraph(p)}
 	// ---- sources ------------------------------------------------------------------
 	type src struct {
@@ -276,6 +284,13 @@ func InputRO(p *core.Prog, r *core.Report) {
 							nt |= ft // the pointer that was stored: into caller memory (T1) or to a shallow copy (T2)
 						} else if holdsPointers(x.Type(), 0) {
 							nt |= ft.fromCopy()
+						}
+					}
+					// a reference loaded out of a package-level variable points to process-wide state
+					if g, ok := baseOfAddr(x.X).(*ssa.Global); ok && pointerish(x.Type()) && g.Pkg == p.Main && !sharedExempt[g.Name()] {
+						nt |= tShared
+						if _, has := a.why[x]; !has {
+							a.why[x] = "loaded from the package-level variable " + g.Name()
 						}
 					}
 					// value loaded from a local cell: whatever was stored there
@@ -503,6 +518,14 @@ func InputRO(p *core.Prog, r *core.Report) {
 		}
 	}
 
+	return a
+}
+
+func InputRO(p *core.Prog, r *core.Report) {
+	const rule = "INPUT-RO"
+	a := roRun(p, r, rule)
+	expAn := p.Func("(*SpecValidator).expandedAnalyzer")
+	_ = expAn
 	if dbg := os.Getenv("VCHK_TAINT"); dbg != "" {
 		for _, f := range p.Funcs {
 			core.EachInstr(f, func(i ssa.Instruction) {
@@ -536,7 +559,7 @@ func InputRO(p *core.Prog, r *core.Report) {
 	}
 	report := func(f *ssa.Function, at ssa.Instruction, target ssa.Value, what string) {
 		n++
-		t := a.get(target).t1()
+		t := a.get(target).t1() &^ tShared
 		key := mk(core.FuncName(f) + ":" + what)
 		if t == 0 {
 			r.OK(rule, key, p.Pos(posOf(at, f)), "written object is private to the package (local, freshly allocated, pooled scratch, deep clone, or a shallow copy written at top level)")
@@ -597,7 +620,7 @@ func InputRO(p *core.Prog, r *core.Report) {
 							report(f, i, x.Call.Args[0], "delete on "+shortType(x.Call.Args[0].Type()))
 						}
 					case "append":
-						if inputTyped(x.Call.Args[0].Type()) && a.get(x.Call.Args[0]).t1() != 0 {
+						if inputTyped(x.Call.Args[0].Type()) && a.get(x.Call.Args[0]).t1()&^tShared != 0 {
 							report(f, i, x.Call.Args[0], "append to "+shortType(x.Call.Args[0].Type()))
 						}
 					case "copy":
@@ -616,13 +639,13 @@ func InputRO(p *core.Prog, r *core.Report) {
 					if mi, ok := arg.(*ssa.MakeInterface); ok {
 						arg = mi.X
 					}
-					if extDeepMutators[core.QualName(g)] && a.get(arg).t1() == 0 && a.get(arg).fromCopy() != 0 {
+					if extDeepMutators[core.QualName(g)] && a.get(arg).t1()&^tShared == 0 && a.get(arg).fromCopy()&^tShared != 0 {
 						n++
 						nBad++
 						r.Bad(rule, mk(core.FuncName(f)+":"+core.QualName(g)+fmt.Sprintf("(#%d)", k)), p.Pos(x.Pos()), fmt.Sprintf("%s also writes through the pointers held by its argument (the schema of a parameter / response): the argument is only a shallow copy of caller-owned memory (%s), so the caller's object is rewritten", core.QualName(g), a.get(arg).fromCopy()))
 						return
 					}
-					if _, isAlloc := baseOfAddr(arg).(*ssa.Alloc); isAlloc && a.get(arg).t1() == 0 {
+					if _, isAlloc := baseOfAddr(arg).(*ssa.Alloc); isAlloc && a.get(arg).t1()&^tShared == 0 {
 						n++
 						r.OK(rule, mk(core.FuncName(f)+":"+core.QualName(g)+fmt.Sprintf("(#%d)", k)), p.Pos(x.Pos()), "mutator applied to a local object")
 						return
@@ -638,7 +661,7 @@ func InputRO(p *core.Prog, r *core.Report) {
 	var tp []string
 	for _, f := range p.Funcs {
 		for _, prm := range f.Params {
-			if t := a.get(prm).t1(); t != 0 {
+			if t := a.get(prm).t1() &^ tShared; t != 0 {
 				tp = append(tp, fmt.Sprintf("%s#%s:%s", core.FuncName(f), prm.Name(), t))
 			}
 		}
